@@ -211,4 +211,20 @@ theorem life_dtor_returns_all (C : Cfg) (hC : C.OK) (ops : List Op) (w : World)
   unfold Heap.ids at hids
   exact List.map_eq_nil_iff.mp hids
 
+/-- non-vacuity of the hypothesis `run … = .ok w` (and of `w.objs = []`): a history over the three classes – copies,
+    moves, both assignments incl. self-assignment, merges by reference and by move, round trip – runs to a normal end
+    in which every object was destroyed, and the heap is indeed empty (evaluated by the kernel) -/
+def exampleCfg : Cfg := genCfg (fun v => v * 2654435761) (fun lg => (2 ^ lg * 5 / 8) ||| 1) (fun a b => a + b)
+
+def exampleHistory : List Op :=
+  [.newTable 0 5 0 (2 ^ 63 - 1), .newFi 3 4 3, .newKll 6 8, .update 0 11 1 [], .update 0 12 1 [], .update 3 7 2 [], .update 3 9 1 [],
+   .update 6 5 0 [true], .update 6 2 0 [], .copy 0 1, .move 0 2, .copyAssign 0 1, .moveAssign 1 2, .copy 3 4, .merge 3 4 true [],
+   .copy 6 7, .merge 6 7 false [], .trim 1, .reset 0, .serialize 1, .roundTrip 3 5, .query 3 7, .moveAssign 6 6, .copyAssign 7 7,
+   .destroy 2, .destroy 0, .destroy 1, .destroy 3, .destroy 4, .destroy 5, .destroy 6, .destroy 7]
+
+example : (match run exampleCfg World.init exampleHistory with
+    | .ok w => w.objs.length == 0 && w.heap.blocks.length == 0
+    | .error _ => false) = true := by
+  decide +kernel
+
 end DS.Life
